@@ -362,6 +362,47 @@ func runC08(c *Ctx, r *Report) {
 		return true
 	})
 	r.Floor("R-C08.13", "link lists handed to the decoded entry", nlist, 2)
+	// every part of the decoded entry is computed from one field of the block: a part patched up from another one
+	// (the key taken from the identity, the log id from the clock) reads back differently from what was written
+	r.Doc("R-C08.14", "each setter call of a ToPlain reader gets a value computed from one field of the wire struct only (a decoded key replaced by the identity's key when they look alike no longer round-trips: the entry re-encodes to another identifier)")
+	{
+		nset := 0
+		for _, pr := range pairs {
+			if pr.reader == nil || pr.reader.Body == nil {
+				continue
+			}
+			srd := p.SSAFunc(pr.reader)
+			if srd == nil || len(srd.Params) == 0 {
+				continue
+			}
+			wireT := namedOf(srd.Params[0].Type())
+			allInstrs(srd, false, func(ins ssa.Instruction) {
+				call, ok := ins.(*ssa.Call)
+				if !ok || !call.Call.IsInvoke() || !strings.HasPrefix(call.Call.Method.Name(), "Set") || len(call.Call.Args) != 1 {
+					return
+				}
+				nset++
+				fields := map[string]bool{}
+				for x := range backSlice(call.Call.Args[0], nil) {
+					if x.Parent() != srd {
+						continue
+					}
+					if f, fa := fieldOf(x); f != nil && fa != nil && namedOf(fa.X.Type()) == wireT {
+						fields[f.Name()] = true
+					}
+				}
+				var fl []string
+				for f := range fields {
+					fl = append(fl, f)
+				}
+				sort.Strings(fl)
+				r.Check(len(fl) <= 1, "R-C08.14", r.Key("R-C08.14", pr.reader, "one-source", strings.TrimPrefix(call.Call.Method.Name(), "Set")), call.Pos(),
+					"the value handed to "+call.Call.Method.Name()+" is computed from one field of the block",
+					fmt.Sprintf("the value %s hands to %s is computed from several fields of the block (%s): one part of the decoded entry is patched up from another, so what is read back is not what was written and the entry re-encodes to another identifier", pr.reader.Name, call.Call.Method.Name(), strings.Join(fl, ", ")))
+			})
+		}
+		r.Floor("R-C08.14", "setter calls of the ToPlain readers", nset, 8)
+	}
 	for _, want := range []string{"V", "LogID", "Key", "Sig", "Next", "Refs", "Clock", "Payload", "Identity"} {
 		r.Check(setters[want], "R-C08.2", r.Key("R-C08.2", rdr, "setter", want), rdr.Body.Pos(), "the decoded "+want+" is stored into the entry", "Entry.ToPlain never calls Set"+want+": the decoded entry loses that field")
 	}
